@@ -1157,6 +1157,32 @@ func runC06Seq(h *H) {
 					if !rowsReadable(c) {
 						return fmt.Sprintf("FAIL:Row: after block %d a Row(i) accessor of target %d panics", bi, j)
 					}
+					// the values are those of the block, whatever the target went through before
+					if a, ok := c.(*proto.ColAuto); ok {
+						c = a.Data
+					}
+					want, got := c16ReadAll(in[j].Data.(proto.Column)), c16ReadAll(c)
+					if len(want) == len(got) {
+						for k := range want {
+							if reflect.TypeOf(want[k]) != reflect.TypeOf(got[k]) {
+								break // another Go representation of the same type (ColBytes read into ColStr): not compared
+							}
+							if !c16Same(want[k], got[k]) {
+								return sanitize(fmt.Sprintf("FAIL:values: after block %d row %d of target %d (%s) is %.60q, the block holds %.60q", bi, k, j, string(c.Type()), fmt.Sprint(got[k]), fmt.Sprint(want[k])))
+							}
+						}
+					}
+				}
+				// another path re-infers the bound columns between two blocks (what sendInput does to a column that is
+				// then used as INSERT input for a table declaring it differently): the next block must still be read
+				// with ITS type's parameters
+				if !auto && h.R.Intn(2) == 0 {
+					for j, s := range specs {
+						c := res[j].Data.(proto.Column)
+						if pool := c16InferPool(s, c); len(pool) > 0 {
+							_ = c.(proto.Inferable).Infer(proto.ColumnType(pool[h.R.Intn(len(pool))].typ))
+						}
+					}
 				}
 				return ""
 			}()
